@@ -68,8 +68,11 @@ impl Env for NativeEnv {
     fn pause(&self, micros: u64) {
         std::thread::sleep(Duration::from_micros(micros));
     }
-    fn keep_waiting(&self, _rounds: u64) -> bool {
-        T0.get().map(|t| t.elapsed() < Duration::from_secs(5)).unwrap_or(true)
+    fn keep_waiting(&self, rounds: u64) -> bool {
+        // each round pauses 100 us (in practice 150-200 us): 2-4 s of waiting for this one condition (an idle phase of the script
+        // itself does not eat the budget)
+        let _ = &T0;
+        rounds < 20_000
     }
 }
 static ENV: NativeEnv = NativeEnv;
@@ -137,7 +140,8 @@ pub fn one(args: &Args) {
     }).unwrap();
     // watchdog on the lifecycle thread
     let start = Instant::now();
-    while !h.is_finished() && start.elapsed() < Duration::from_secs(6) {
+    let idle_extra = if script == Script::IdleThenWork { Duration::from_micros(hvcommon_idle()) } else { Duration::ZERO };
+    while !h.is_finished() && start.elapsed() < Duration::from_secs(6) + idle_extra {
         std::thread::sleep(Duration::from_millis(2));
     }
     let mut viol: Vec<(String, String)> = Vec::new();
@@ -237,10 +241,14 @@ fn spec_args(s: &Spec) -> Vec<String> {
     vec!["c08-one".into(), "--n".into(), s.n.to_string(), "--tasks".into(), s.tasks.clone(), "--script".into(), s.script.to_string(), "--plan".into(), s.plan.to_string()]
 }
 
-static BLOCKED_BY_SCRIPT: [AtomicU64; 8] = [AtomicU64::new(0), AtomicU64::new(0), AtomicU64::new(0), AtomicU64::new(0), AtomicU64::new(0), AtomicU64::new(0), AtomicU64::new(0), AtomicU64::new(0)];
+static BLOCKED_BY_SCRIPT: [AtomicU64; 9] = [AtomicU64::new(0), AtomicU64::new(0), AtomicU64::new(0), AtomicU64::new(0), AtomicU64::new(0), AtomicU64::new(0), AtomicU64::new(0), AtomicU64::new(0), AtomicU64::new(0)];
+
+fn hvcommon_idle() -> u64 {
+    IDLE_MICROS
+}
 
 fn run_spec(s: &Spec, r: &mut Report) {
-    if BLOCKED_BY_SCRIPT[s.script % 8].load(Ordering::SeqCst) >= 6 {
+    if BLOCKED_BY_SCRIPT[s.script % 9].load(Ordering::SeqCst) >= 6 {
         // the same lifecycle script has already blocked forever six times: do not spend 7 s on each further one
         r.count("scenarios_skipped_after_repeated_block", 1);
         return;
@@ -310,7 +318,7 @@ fn run_spec(s: &Spec, r: &mut Report) {
             if let Some(a) = v.as_arr() {
                 let ex = J::obj(vec![("scenario", desc.clone()), ("observed", a[1].clone()), ("event_trace", j.get("trace").cloned().unwrap_or(J::Null))]);
                 if a[0].as_str().map(|x| x.contains("block")).unwrap_or(false) {
-                    BLOCKED_BY_SCRIPT[s.script % 8].fetch_add(1, Ordering::SeqCst);
+                    BLOCKED_BY_SCRIPT[s.script % 9].fetch_add(1, Ordering::SeqCst);
                 }
                 r.violation(a[0].as_str().unwrap_or("C08/?"), format!("{} [{} workers, tasks {:?}, script {:?}, plan {}]", a[1].as_str().unwrap_or(""), s.n, s.tasks, script_from(s.script), s.plan), ex, replay.clone());
             }
@@ -359,6 +367,10 @@ pub fn specs(seed: u64, thorough: bool) -> Vec<Spec> {
             }
         }
     }
+    // a started pool that receives no task for more than five seconds, then work and a barrier round
+    for (n, tasks) in [(1usize, "rr"), (2, "rprz"), (3, "Mrqr")] {
+        v.push(Spec { n, tasks: tasks.into(), script: 8, plan: 0 });
+    }
     // randomised: larger pools, up to 64 tasks
     for _ in 0..(if thorough { 12_000 } else { 600 }) {
         let n = rng.urange(1, 8);
@@ -397,7 +409,7 @@ pub fn main(args: &Args) {
     for h in hs {
         total.merge(h.join().unwrap());
     }
-    total.write(out, "thread-pool scenarios, one process each: N in 1..3 x every panic subset of every task list of length 0..4 (task bodies return/yield/spin/sleep, panic before or after work) x 6 lifecycle scripts (wait+barrier round+stop+drop, stop with tasks still queued+drop, wait+barrier round+drop without stop, immediate drop without stop, and restart: run-stop-start-run followed by stop+drop or drop) + never-started and start-stop-drop pools + repeated panics on a one-worker pool + pools with a registered monitor whose tasks queue for more than the 100 ms overload threshold behind N long sleepers + random scenarios (one in four with a monitor) with 1..8 workers and up to 64 tasks; each under a seeded delay plan on 11 failpoints inside pool/recovery code. distinct = distinct (scenario, sequence of (event, task, worker name)) i.e. observed interleavings; non-trivial = at least one task event", None, &["interleavings are sampled (delay plans + OS scheduling), not enumerated: the property's systematic preemption-bounded quantifier is not delivered by this family", "blocked-forever is decided by a 6 s watchdog plus two /proc samples one second apart showing every thread asleep with unchanged CPU ticks; otherwise the run is inconclusive", "the pool's recovery thread is detached by design and is not counted as a worker thread"]);
+    total.write(out, "thread-pool scenarios, one process each: N in 1..3 x every panic subset of every task list of length 0..4 (task bodies return/yield/spin/sleep, panic before or after work) x 6 lifecycle scripts (wait+barrier round+stop+drop, stop with tasks still queued+drop, wait+barrier round+drop without stop, immediate drop without stop, and restart: run-stop-start-run followed by stop+drop or drop) + never-started and start-stop-drop pools + pools left idle for 5.6 s before any task + repeated panics on a one-worker pool + pools with a registered monitor whose tasks queue for more than the 100 ms overload threshold behind N long sleepers + random scenarios (one in four with a monitor) with 1..8 workers and up to 64 tasks; each under a seeded delay plan on 11 failpoints inside pool/recovery code. distinct = distinct (scenario, sequence of (event, task, worker name)) i.e. observed interleavings; non-trivial = at least one task event", None, &["interleavings are sampled (delay plans + OS scheduling), not enumerated: the property's systematic preemption-bounded quantifier is not delivered by this family", "blocked-forever is decided by a 6 s watchdog plus two /proc samples one second apart showing every thread asleep with unchanged CPU ticks; otherwise the run is inconclusive", "the pool's recovery thread is detached by design and is not counted as a worker thread"]);
 }
 
 pub fn replay_one(args: &Args) {
